@@ -991,6 +991,109 @@ func c16(c *core.Ctx) {
 		c.Floor("SetCallCode-sites", n, 6)
 	})
 
+	c.Clause("C16.8", "the integer pool recycles only integers the frame owns: every value handed to intPool.put was popped from the frame's stack, taken from the pool, or freshly allocated (or is the result of a big.Int method on such a value) — a shared integer (common.Big0 returned for a zero-length memory operand, a constant, a field of the contract) that enters the pool is overwritten by the next opcode that takes it out, and every later execution in the process sees the changed constant")
+	c.Run("intpool-owned", func() {
+		put := c.Method(vm+".intPool", "put")
+		get := []*types.Func{c.Method(vm+".intPool", "get"), c.Method(vm+".intPool", "getZero")}
+		pop := []*types.Func{c.Method(vm+".Stack", "pop")}
+		var owned func(v ssa.Value, d int) bool
+		owned = func(v ssa.Value, d int) bool {
+			if d > 10 {
+				return false
+			}
+			switch x := v.(type) {
+			case *ssa.Alloc:
+				return true
+			case *ssa.Call:
+				o := core.CalleeObj(x)
+				for _, g := range append(append([]*types.Func{}, get...), pop...) {
+					if o == g {
+						return true
+					}
+				}
+				if o != nil && o.Pkg() != nil && o.Pkg().Path() == "math/big" {
+					if o.Name() == "NewInt" {
+						return true
+					}
+					if sig, ok := o.Type().(*types.Signature); ok && sig.Recv() != nil && len(x.Call.Args) > 0 {
+						return owned(x.Call.Args[0], d+1)
+					}
+				}
+				// math.U256 and friends hand back their argument
+				if sf := core.StaticFn(x); sf != nil && core.RelPkg(sf) == "common/math" && len(x.Call.Args) == 1 {
+					return owned(x.Call.Args[0], d+1)
+				}
+				return false
+			case *ssa.Extract:
+				return false
+			case *ssa.Phi:
+				for _, e := range x.Edges {
+					if !owned(e, d+1) {
+						return false
+					}
+				}
+				return len(x.Edges) > 0
+			case *ssa.UnOp:
+				if al, ok := x.X.(*ssa.Alloc); ok && x.Op == token.MUL && al.Referrers() != nil {
+					n := 0
+					for _, r := range *al.Referrers() {
+						if st, ok := r.(*ssa.Store); ok && st.Addr == ssa.Value(al) {
+							n++
+							if !owned(st.Val, d+1) {
+								return false
+							}
+						}
+					}
+					return n > 0
+				}
+			}
+			return false
+		}
+		nPut, nArg := 0, 0
+		seq := map[string]int{}
+		for _, fn := range c.SrcFuncs {
+			if core.RelPkg(fn) != vm || isTestHelper(c, fn) || fn == c.Fn(vm+".intPool.put") {
+				continue
+			}
+			for _, ci := range core.CallsIn(fn, put) {
+				nPut++
+				// the variadic slice: every element stored into it
+				a := ci.Common().Args
+				if len(a) < 2 {
+					continue
+				}
+				var elems []ssa.Value
+				if sl, ok := a[1].(*ssa.Slice); ok {
+					if al, ok := sl.X.(*ssa.Alloc); ok {
+						for _, r := range *al.Referrers() {
+							if ia, ok := r.(*ssa.IndexAddr); ok {
+								for _, rr := range *ia.Referrers() {
+									if st, ok := rr.(*ssa.Store); ok && st.Addr == ssa.Value(ia) {
+										elems = append(elems, st.Val)
+									}
+								}
+							}
+						}
+					}
+				}
+				if len(elems) == 0 {
+					elems = append(elems, a[1]) // put(xs...) with an existing slice: judged as a whole
+				}
+				for _, e := range elems {
+					nArg++
+					if owned(e, 0) {
+						continue
+					}
+					name := shortFn(fn)
+					seq[name]++
+					c.Check("intPool.put(owned)@"+name+seqSuffix(seq[name]), "alias-write", false, ci.Pos(), "%s recycles an integer that is not known to belong to the frame (popped, pooled or freshly made)", name)
+				}
+			}
+		}
+		c.Floor("intPool.put/sites", nPut, 40)
+		c.Note("intPool.put: %d call sites, %d recycled values, all owned unless reported", nPut, nArg)
+	})
+
 	c.NotDecidedf("termination and gas ≤ limit as arithmetic facts (that costs are positive, that the 63/64 forwarding and the refund never exceed what was deducted, absence of uint64 wrap-around in gas arithmetic)")
 	c.NotDecidedf("correctness of individual opcodes and gas functions (stack effects, memory bounds inside an operation, that an operation's declared stack requirement matches what it pops)")
 	c.NotDecidedf("precompile behaviour on odd inputs (panics inside bn256/modexp/json decoding); only their gas bracket and the closed set of state-writing precompiles are decided; setRewardValue writes storage without consulting readOnly and relies on the caller == RewardManager gate in run()")
